@@ -25,10 +25,11 @@ import (
 	"math/rand"
 	"os"
 	"path/filepath"
+	"runtime"
 	"sort"
+	"strconv"
 	"strings"
 	"sync"
-	"sync/atomic"
 	"testing"
 	"testing/iotest"
 	"time"
@@ -36,6 +37,7 @@ import (
 	v1 "github.com/dapr/kit/schemes/enc/v1"
 
 	"verifharness/c01/encref"
+	"verifharness/c01/poolchk"
 	"verifharness/internal/ev"
 	"verifharness/internal/tlc"
 	"verifharness/internal/tv"
@@ -105,7 +107,7 @@ func (c frameCase) class() string {
 		return "src-error-with-data"
 	case c.Script.ErrAt >= 0:
 		return "src-error"
-	case len(c.Script.ZeroBefore) > 0:
+	case len(c.Script.ZeroBefore) > 0 || c.Script.ZeroEach > 0:
 		return "zero-read"
 	case c.Script.EOFWithData:
 		return "eof-with-data"
@@ -234,20 +236,10 @@ type decCase struct {
 // poison-on-Put: while poisonOn is set, every buffer handed back to v1.BufPool is overwritten first (hook point
 // "bufpool.put"), so that any view into a pooled buffer that outlives the Put is visibly destroyed - deterministically,
 // without needing a concurrent user of the pool.
-var poisonOn atomic.Bool
 
 func installPoison() {
-	v1.VerifHook = func(point string, arg any) {
-		if point != "bufpool.put" || !poisonOn.Load() {
-			return
-		}
-		if b, ok := arg.(*[]byte); ok && b != nil {
-			for i := range *b {
-				(*b)[i] = 0xA5
-			}
-		}
-	}
-	poisonOn.Store(true)
+	poolchk.Install()
+	poolchk.Poison.Store(true)
 }
 
 type docCase struct {
@@ -264,6 +256,7 @@ type docCase struct {
 	File       string    `json:"file"` // stored: file name
 	Decs       []decCase `json:"decs"`
 	Seed       int64     `json:"seed"`
+	NoDrain    bool      `json:"noDrain"` // staged family: leave the pool as the operations leave it
 }
 
 func plaintext(n int, seed int64) []byte {
@@ -320,6 +313,12 @@ func mkReader(style string, data []byte, bounds []int, seed int64) io.Reader {
 		return encref.New(data, encref.Script{Chunks: cut(append(append(shift(-1), shift(0)...), shift(1)...)), ErrAt: -1, EOFWithData: true}, nil)
 	case style == "zeros":
 		return encref.New(data, encref.Script{Chunks: cut(shift(0)), ErrAt: -1, ZeroBefore: append([]int{0, len(data)}, bounds...)}, nil)
+	case style == "zeros-many":
+		// a zero-length read before every 1 KiB chunk: hundreds of empty reads over a long stream, never two in a row
+		return encref.New(data, encref.Script{ChunkSize: 1024, ZeroEach: 1, ErrAt: -1}, nil)
+	case style == "zeros-many3":
+		// three zero-length reads before every 4 KiB chunk, the last data together with io.EOF
+		return encref.New(data, encref.Script{ChunkSize: 4096, ZeroEach: 3, ErrAt: -1, EOFWithData: true}, nil)
 	case style == "onebyte":
 		return iotest.OneByteReader(bytes.NewReader(data))
 	case style == "half":
@@ -441,6 +440,155 @@ func termClass(err error) string {
 	return "err"
 }
 
+// decompose has the reference implementation take a document apart and records what it finds (doc and seg events).
+func decompose(r *rec, doc, pt, fk, wfk []byte) encref.Header {
+	h, payload := encref.ParseHeader(doc)
+	has := func(k string) bool {
+		for _, x := range h.Keys {
+			if x == k {
+				return true
+			}
+		}
+		return false
+	}
+	de := tv.M{"scheme": h.Scheme, "lines": h.Lines, "compact": h.Compact, "required": has("kw") && has("wfk") && has("cph") && has("np") && h.ParseErr == "",
+		"hasK": has("k"), "k": h.Manifest.KeyName, "kw": h.Manifest.Kw, "cph": h.Manifest.Cph,
+		"wfkOK": len(wfk) > 0 && bytes.Equal(h.Manifest.WFK, wfk) && bytes.Contains(h.ManifestRaw, []byte(`"`+base64.StdEncoding.EncodeToString(wfk)+`"`)),
+		"npLen": len(h.Manifest.NoncePrefix), "macStd": h.MacStd, "macLen": len(h.Mac),
+		"macOK": h.MacStd && len(fk) == 32 && bytes.Equal(h.Mac, encref.ComputeMAC(fk, h.Signed)), "payloadLen": len(payload), "hdrLen": h.Len}
+	r.Ev("doc", de)
+	if h.Lines == 3 && len(fk) == 32 && len(h.Manifest.NoncePrefix) == encref.NPLen {
+		off := 0
+		for i, s := range encref.SplitSegments(payload) {
+			opens, ok := "none", false
+			for _, last := range []bool{true, false} {
+				if p, err := encref.OpenSegment(h.Manifest.Cph, fk, h.Manifest.NoncePrefix, uint32(i), last, s); err == nil {
+					opens = map[bool]string{true: "last", false: "notlast"}[last]
+					ok = off+len(p) <= len(pt) && bytes.Equal(p, pt[off:off+len(p)])
+					off += len(p)
+					break
+				}
+			}
+			r.Ev("seg", tv.M{"i": i, "clen": len(s), "opens": opens, "plainOK": ok})
+		}
+	}
+
+	return h
+}
+
+// rejectOne has the real Decrypt reject one tampered document (tag of the first stored segment flipped) and waits until
+// its goroutine has handed its buffer back.
+func rejectOne(cph string, seed int64) string {
+	w, u := encref.IdentityPair()
+	c := v1.Cipher(cph)
+	before := poolchk.Puts()
+	enc, err := v1.Encrypt(bytes.NewReader(plaintext(2*segSize+500, seed)), v1.EncryptOptions{WrapKeyFn: w, KeyName: "k", Algorithm: v1.KeyAlgorithmAES256KW, Cipher: &c})
+	if err != nil {
+		return "encrypt: " + err.Error()
+	}
+	doc, err := io.ReadAll(enc)
+	if err != nil {
+		return "encrypt stream: " + err.Error()
+	}
+	h, _ := encref.ParseHeader(doc)
+	doc[h.Len+segSize+tagSize-3] ^= 0x04
+	dec, err := v1.Decrypt(bytes.NewReader(doc), v1.DecryptOptions{UnwrapKeyFn: u})
+	if err != nil {
+		return "decrypt: " + err.Error()
+	}
+	_, err = io.Copy(io.Discard, dec)
+	poolchk.WaitPuts(before+3, 50*time.Millisecond)
+	if err == nil {
+		return "accepted"
+	}
+	return "rejected"
+}
+
+// runStaged: stage 1 rejects one tampered document; k = 0: the pool is drained and inspected right away; k >= 1: k
+// Encrypt->Decrypt pipelines (Encrypt's output stream is Decrypt's input) of different multi-segment messages run
+// concurrently on the pool as stage 1 left it.  One trace per pipeline (or one for k = 0).
+func runStaged(cph string, k int, seed int64) (bs []*tv.Batch, descs []string) {
+	outcome := rejectOne(cph, seed)
+	if k == 0 {
+		b := &tv.Batch{}
+		b.Start(tv.M{"len": 0, "S": segSize, "tag": tagSize, "cipher": cph, "alg": "A256KW", "keyName": "k", "decKeyName": "", "omit": false, "producer": "stage", "hmax": segSize})
+		b.Ev("stage", tv.M{"what": "one tampered document handed to Decrypt", "outcome": outcome})
+		twice, n := poolchk.Drain()
+		b.Ev("pool", tv.M{"twice": twice, "buffers": n, "after": "rejected-document"})
+		b.Ev("end", nil)
+		return []*tv.Batch{b}, []string{"one tampered document rejected, then the pool is inspected"}
+	}
+	type pipe struct {
+		pt, fk, wfk, doc  []byte
+		wrapAlg, wrapName string
+		n                 int
+		eq                bool
+		term, errs        string
+		encErr            string
+	}
+	ps := make([]*pipe, k)
+	var wg sync.WaitGroup
+	before := poolchk.Puts()
+	for j := range ps {
+		p := &pipe{pt: plaintext(2*segSize+1000*(j+1)+j, seed+int64(j))}
+		ps[j] = p
+		wg.Add(1)
+		go func() {
+			defer wg.Done()
+			c := v1.Cipher(cph)
+			enc, err := v1.Encrypt(bytes.NewReader(p.pt), v1.EncryptOptions{KeyName: "k", Algorithm: v1.KeyAlgorithmAES256KW, Cipher: &c,
+				WrapKeyFn: func(key []byte, alg, name string, nonce []byte) ([]byte, []byte, error) {
+					p.fk, p.wfk = append([]byte{}, key...), append([]byte{}, key...)
+					p.wrapAlg, p.wrapName = alg, name
+					return append([]byte{}, key...), nil, nil
+				}})
+			if err != nil {
+				p.encErr = err.Error()
+				return
+			}
+			var captured bytes.Buffer
+			dec, err := v1.Decrypt(io.TeeReader(enc, &captured), v1.DecryptOptions{UnwrapKeyFn: func(w []byte, alg, name string, nonce, tag []byte) ([]byte, error) {
+				return append([]byte{}, w...), nil
+			}})
+			if err != nil {
+				p.term, p.errs = "decrypt-err", err.Error()
+				_, _ = io.Copy(&captured, enc)
+			} else {
+				var term error
+				p.n, p.eq, term = drain(dec, 3000, p.pt)
+				p.term, p.errs = termClass(term), term.Error()
+				go func() { _, _ = io.Copy(io.Discard, enc) }() // release the encrypting goroutine if Decrypt gave up early
+			}
+			p.doc = captured.Bytes()
+		}()
+	}
+	wg.Wait()
+	poolchk.WaitPuts(before+int64(3*k), 50*time.Millisecond)
+	for j, p := range ps {
+		b := &tv.Batch{}
+		r := &rec{b: b}
+		b.Start(tv.M{"len": len(p.pt), "S": segSize, "tag": tagSize, "cipher": cph, "alg": "A256KW", "keyName": "k", "decKeyName": "", "omit": false, "producer": "real", "hmax": segSize,
+			"pipelines": k, "pipeline": j})
+		r.Ev("stage", tv.M{"what": "one tampered document handed to Decrypt before the pipelines started", "outcome": outcome})
+		if p.encErr != "" {
+			r.Ev("encfail", tv.M{"stage": "call", "err": p.encErr, "hdrWouldBe": 0})
+		} else {
+			r.Ev("wrap", tv.M{"alg": p.wrapAlg, "keyName": p.wrapName, "fkLen": len(p.fk)})
+			r.Ev("unwrap", tv.M{"override": "", "alg": "A256KW", "keyName": "k"})
+			r.Ev("dec", tv.M{"by": "real", "override": "", "src": "pipeline", "cbuf": 3000, "mode": "pipeline-after-reject", "n": p.n, "equal": p.eq, "term": p.term, "err": p.errs})
+			decompose(r, p.doc, p.pt, p.fk, p.wfk)
+		}
+		if j == len(ps)-1 {
+			twice, n := poolchk.Drain()
+			r.Ev("pool", tv.M{"twice": twice, "buffers": n, "after": "pipelines"})
+		}
+		r.Ev("end", nil)
+		bs = append(bs, b)
+		descs = append(descs, fmt.Sprintf("pipeline %d of %d concurrent Encrypt->Decrypt pipelines (%d-byte message, %s) started right after one tampered document was rejected", j+1, k, len(p.pt), cph))
+	}
+	return bs, descs
+}
+
 // runDoc executes one document case and appends its trace to b.
 func runDoc(b *tv.Batch, cs docCase) {
 	r := &rec{b: b}
@@ -457,6 +605,10 @@ func runDoc(b *tv.Batch, cs docCase) {
 	if cs.Pair == "caching" {
 		vault = encref.NewVault()
 		wrapFn, unwrapFn = vault.Wrap, vault.Unwrap
+	} else if strings.HasPrefix(cs.Pair, "sized:") {
+		n, _ := strconv.Atoi(cs.Pair[6:])
+		sv := encref.NewSizedVault(n)
+		wrapFn, unwrapFn = sv.Wrap, sv.Unwrap
 	} else {
 		wrapFn, unwrapFn = pair(cs.Pair)
 	}
@@ -465,10 +617,19 @@ func runDoc(b *tv.Batch, cs docCase) {
 			r.Ev("keycheck", tv.M{"intact": vault.Intact(), "after": after})
 		}
 	}
+	// pool discipline: once the goroutines of the operation have handed their buffers back, no buffer may be in the pool twice
+	poolcheck := func(before, expect int64, after string) {
+		poolchk.WaitPuts(before+expect, 20*time.Millisecond)
+		if !cs.NoDrain {
+			twice, n := poolchk.Drain()
+			r.Ev("pool", tv.M{"twice": twice, "buffers": n, "after": after})
+		}
+	}
 	var fk, wfk []byte
 	var doc []byte
 	switch cs.Producer {
 	case "real":
+		putsBefore := poolchk.Puts()
 		opts := v1.EncryptOptions{
 			WrapKeyFn: func(k []byte, alg, name string, nonce []byte) ([]byte, []byte, error) {
 				r.Ev("wrap", tv.M{"alg": alg, "keyName": name, "fkLen": len(k)})
@@ -516,7 +677,7 @@ func runDoc(b *tv.Batch, cs docCase) {
 			}
 		}
 		doc = buf.Bytes()
-		time.Sleep(100 * time.Microsecond) // let the encrypting goroutine finish
+		poolcheck(putsBefore, 1, "encrypt")
 		keycheck("encrypt")
 	case "ref":
 		fk = plaintext(32, cs.Seed+1000)
@@ -550,37 +711,7 @@ func runDoc(b *tv.Batch, cs docCase) {
 		fk, wfk = h.Manifest.WFK, h.Manifest.WFK // the stored documents were made with the identity pair
 	}
 
-	// structural decomposition by the reference implementation
-	h, payload := encref.ParseHeader(doc)
-	has := func(k string) bool {
-		for _, x := range h.Keys {
-			if x == k {
-				return true
-			}
-		}
-		return false
-	}
-	de := tv.M{"scheme": h.Scheme, "lines": h.Lines, "compact": h.Compact, "required": has("kw") && has("wfk") && has("cph") && has("np") && h.ParseErr == "",
-		"hasK": has("k"), "k": h.Manifest.KeyName, "kw": h.Manifest.Kw, "cph": h.Manifest.Cph,
-		"wfkOK": len(wfk) > 0 && bytes.Equal(h.Manifest.WFK, wfk) && bytes.Contains(h.ManifestRaw, []byte(`"`+base64.StdEncoding.EncodeToString(wfk)+`"`)),
-		"npLen": len(h.Manifest.NoncePrefix), "macStd": h.MacStd, "macLen": len(h.Mac),
-		"macOK": h.MacStd && len(fk) == 32 && bytes.Equal(h.Mac, encref.ComputeMAC(fk, h.Signed)), "payloadLen": len(payload), "hdrLen": h.Len}
-	r.Ev("doc", de)
-	if h.Lines == 3 && len(fk) == 32 && len(h.Manifest.NoncePrefix) == encref.NPLen {
-		off := 0
-		for i, s := range encref.SplitSegments(payload) {
-			opens, ok := "none", false
-			for _, last := range []bool{true, false} {
-				if p, err := encref.OpenSegment(h.Manifest.Cph, fk, h.Manifest.NoncePrefix, uint32(i), last, s); err == nil {
-					opens = map[bool]string{true: "last", false: "notlast"}[last]
-					ok = off+len(p) <= len(pt) && bytes.Equal(p, pt[off:off+len(p)])
-					off += len(p)
-					break
-				}
-			}
-			r.Ev("seg", tv.M{"i": i, "clen": len(s), "opens": opens, "plainOK": ok})
-		}
-	}
+	h := decompose(r, doc, pt, fk, wfk)
 
 	// decryptions
 	for _, d := range cs.Decs {
@@ -593,16 +724,28 @@ func runDoc(b *tv.Batch, cs docCase) {
 			}
 			r.Ev("dec", tv.M{"by": "ref", "override": d.Override, "src": d.Src, "cbuf": d.CBuf, "n": len(out), "equal": bytes.Equal(out, pt), "term": term})
 		case "real":
+			putsBefore := poolchk.Puts()
 			n, eq, term, errs := realDecrypt(r, doc, pt, h.Len, cs, d, unwrapFn, true)
+			expect := int64(2)
+			if d.Mode == "slow-unwrap" {
+				expect += 3
+			}
+			if d.Mode == "two-streams" {
+				expect *= 2
+			}
+			if term == "decrypt-err" {
+				expect = 1
+			}
 			m := tv.M{"by": "real", "override": d.Override, "src": d.Src, "cbuf": d.CBuf, "mode": d.Mode, "n": n, "equal": eq, "term": term, "err": errs}
-			if (term != "eof" || !eq) && poisonOn.Load() {
+			if (term != "eof" || !eq) && poolchk.Poison.Load() {
 				// does the same decryption succeed when pooled buffers are left alone after Put?
-				poisonOn.Store(false)
+				poolchk.Poison.Store(false)
 				_, eq2, term2, _ := realDecrypt(r, doc, pt, h.Len, cs, d, unwrapFn, false)
-				poisonOn.Store(true)
+				poolchk.Poison.Store(true)
 				m["poisonOnly"] = term2 == "eof" && eq2
 			}
 			r.Ev("dec", m)
+			poolcheck(putsBefore, expect, "decrypt")
 			keycheck("decrypt")
 		}
 	}
@@ -843,6 +986,30 @@ func docCases(thorough bool, rng *rand.Rand) []docCase {
 			}
 		}
 	}
+	// zero-length reads spread over the WHOLE stream (hundreds of them, never many in a row), for the plaintext source of
+	// Encrypt and the ciphertext source of Decrypt
+	zl := []int{4*segSize + 17, 2 * segSize}
+	if thorough {
+		zl = append(zl, 1<<20, 3<<20+5)
+	}
+	for _, l := range zl {
+		for ci := 0; ci < 2; ci++ {
+			for _, st := range []string{"zeros-many", "zeros-many3"} {
+				out = append(out, docCase{Producer: "real", Len: l, Cipher: allCiphers[ci], Alg: allAlgs[i%len(allAlgs)], KeyName: "enc-key", Pair: "identity", Src: st, CBuf: segSize, Seed: seed + int64(i),
+					Decs: []decCase{{By: "ref"}, {By: "real", Src: "zeros-many", CBuf: segSize}, {By: "real", Src: "zeros-many3", CBuf: 1 << 20}, {By: "real", Src: "bytes.Reader", CBuf: 4096}}})
+				i++
+			}
+		}
+	}
+	// wrapped file keys of many sizes (the format does not limit the wrapped key; the header as a whole must fit one segment)
+	for wi, n := range []int{1, 16, 32, 40, 256, 512, 513, 1024, 4096, 40000, 65536} {
+		for _, l := range []int{5, segSize + 1} {
+			out = append(out, docCase{Producer: "real", Len: l, Cipher: allCiphers[(wi+l)%2], Alg: allAlgs[i%len(allAlgs)], KeyName: "enc-key", Omit: wi%3 == 2, Pair: fmt.Sprintf("sized:%d", n), Src: "whole-eof",
+				CBuf: 4096, Seed: seed + int64(i), Decs: []decCase{{By: "ref", Override: "ovr-key"}, {By: "real", Src: "bytes.Reader", CBuf: 4096, Override: "ovr-key"}, {By: "real", Src: "half", CBuf: segSize, Override: "ovr-key"},
+					{By: "real", Src: "whole", CBuf: 512, Override: "ovr-key", Mode: "two-streams"}}})
+			i++
+		}
+	}
 	// caching key provider: the unwrap callback returns the same retained slice on every call; every document is
 	// decrypted several times (and once unsuccessfully: no key name) through it
 	for _, l := range []int{0, 5, segSize + 1, 2 * segSize} {
@@ -1060,7 +1227,7 @@ func TestCheck(t *testing.T) {
 				mcRun(e, module, cfg, 3*time.Minute, true)
 			}()
 		}
-		for _, d := range []string{"MC_framing_defect_swallow.cfg", "MC_framing_defect_nocarry.cfg", "MC_framing_defect_eager-last.cfg"} {
+		for _, d := range []string{"MC_framing_defect_swallow.cfg", "MC_framing_defect_nocarry.cfg", "MC_framing_defect_eager-last.cfg", "MC_framing_defect_empty-read-budget.cfg"} {
 			defect("EncFraming", d)
 		}
 		for _, d := range []string{"MC_format_defect_alias.cfg", "MC_format_defect_omit.cfg", "MC_format_defect_hdr-off-by-one.cfg", "MC_format_defect_hdr-none.cfg", "MC_format_defect_wipes-key.cfg"} {
@@ -1077,6 +1244,12 @@ func TestCheck(t *testing.T) {
 	var fcases []frameCase
 	for _, S := range ev.Pick([]int{3}, []int{3, 4}) {
 		fcases = append(fcases, frameCases(S, thorough, rng)...)
+		// hundreds of zero-length reads spread over a long stream (never more than three in a row)
+		fcases = append(fcases,
+			frameCase{S: S, Len: 250, Script: encref.Script{ChunkSize: 1, ZeroEach: 1, ErrAt: -1}, CBuf: 64},
+			frameCase{S: S, Len: 200, Script: encref.Script{ChunkSize: 2, ZeroEach: 2, ErrAt: -1, EOFWithData: true}, CBuf: S},
+			frameCase{S: S, Len: 254, Script: encref.Script{ChunkSize: S + 1, ZeroEach: 3, ErrAt: -1}, CBuf: 1},
+			frameCase{S: S, Len: 252, Script: encref.Script{ChunkSize: S, ZeroEach: 1, ErrAt: -1, EOFWithData: true}, CBuf: 7})
 	}
 	fb := &batches{maxLine: 250000}
 	for i, cs := range fcases {
@@ -1091,24 +1264,27 @@ func TestCheck(t *testing.T) {
 	// 3. real Encrypt / Decrypt at the real segment size
 	dcases := docCases(thorough, rng)
 	dres := make([]*tv.Batch, len(dcases))
-	{
-		var wg sync.WaitGroup
-		// one operation at a time: C01 is about an operation run alone (interference between concurrent
-		// streams through the package-level BufPool is property C08's subject, not this one's)
-		sem := make(chan struct{}, 1)
-		for i := range dcases {
-			wg.Add(1)
-			go func(i int) {
-				defer wg.Done()
-				sem <- struct{}{}
-				defer func() { <-sem }()
-				b := &tv.Batch{}
-				runDoc(b, dcases[i])
-				dres[i] = b
-			}(i)
-		}
-		wg.Wait()
+	// one operation at a time, on one P: C01 is about an operation run alone (interference between concurrent streams
+	// through the package-level BufPool is property C08's subject), and one P means one pool shard, so that what one
+	// operation hands back is what the next one gets and draining the pool is exact
+	prevProcs := runtime.GOMAXPROCS(1)
+	for i := range dcases {
+		b := &tv.Batch{}
+		runDoc(b, dcases[i])
+		dres[i] = b
 	}
+	// staged family: ONE tampered document is rejected first, then (a) the pool is inspected, (b) 1..3 Encrypt->Decrypt
+	// pipelines (two segment loops each) run at the same time: every round trip must succeed
+	var staged []*tv.Batch
+	var stagedDesc []string
+	for ci, cph := range []string{"AES-GCM", "CHACHA20-POLY1305"} {
+		for k := 0; k <= 3; k++ {
+			bs, ds := runStaged(cph, k, ev.Seed()+int64(10*ci+k))
+			staged = append(staged, bs...)
+			stagedDesc = append(stagedDesc, ds...)
+		}
+	}
+	runtime.GOMAXPROCS(prevProcs)
 	db := &batches{maxLine: 250000}
 	ndec := 0
 	for i, b := range dres {
@@ -1142,13 +1318,41 @@ func TestCheck(t *testing.T) {
 	e.Set("transitions", mcFraming.Generated+mcFormat.Generated+mcPosition.Generated)
 	e.Set("checker_cmd", mcFraming.Cmd+" ; "+mcFormat.Cmd)
 	e.Set("model_checks", tv.M{"EncFraming": tv.M{"distinct": mcFraming.Distinct, "generated": mcFraming.Generated, "depth": mcFraming.Depth},
-		"EncV1Format": tv.M{"distinct": mcFormat.Distinct, "generated": mcFormat.Generated}, "EncPosition": tv.M{"distinct": mcPosition.Distinct}, "defect_configs_rejected": 10})
+		"EncV1Format": tv.M{"distinct": mcFormat.Distinct, "generated": mcFormat.Generated}, "EncPosition": tv.M{"distinct": mcPosition.Distinct}, "defect_configs_rejected": 11})
 
 	// 4. TLC judges the recorded executions
 	frej, ftr, fl, _, ferr := fb.validate("TraceEncFraming", ev.Pick(6*time.Minute, 40*time.Minute))
 	fmt.Printf("TLC framing trace validation: traces=%d lines=%d rejects=%d %s\n", ftr, fl, len(frej), ferr)
 	drej, dtr, dl, _, derr := db.validate("TraceEncV1Format", ev.Pick(6*time.Minute, 30*time.Minute))
 	fmt.Printf("TLC format trace validation: traces=%d lines=%d rejects=%d %s\n", dtr, dl, len(drej), derr)
+	stb := &batches{maxLine: 250000}
+	for i, b := range staged {
+		stb.cur().AppendTrace(b.Trace(0))
+		stb.note(i)
+		e.Nontrivial("staged " + stagedDesc[i])
+	}
+	strej, sttr, _, _, sterr := stb.validate("TraceEncV1Format", 5*time.Minute)
+	fmt.Printf("TLC staged-family trace validation: traces=%d rejects=%d %s\n", sttr, len(strej), sterr)
+	if sterr != "" {
+		e.Inconclusive(sterr)
+	}
+	for _, r := range strej {
+		evs := ""
+		if r.At < len(r.Trace) {
+			evs = r.Trace[r.At]
+		}
+		key := "format:staged:" + slug(r.Why)
+		switch {
+		case strings.HasPrefix(r.Why, "pooled buffer"):
+			key = "pool:buffer-in-pool-twice:after-" + jsonField(evs, "after")
+		case strings.Contains(evs, `"ev":"dec"`):
+			key = "roundtrip:pipeline-after-rejected-document:" + slug(r.Why)
+		}
+		if len(evs) > 500 {
+			evs = evs[:500] + "..."
+		}
+		e.Violation(key, fmt.Sprintf("%s: %s [%s]", stagedDesc[r.Case], r.Why, evs), tv.M{"scenario": stagedDesc[r.Case], "trace": r.Trace, "at": r.At})
+	}
 	srej, str, sl, _, serr := sb.validate("TraceEncV1Format", 5*time.Minute)
 	fmt.Printf("TLC segment-number trace validation: traces=%d lines=%d rejects=%d %s\n", str, sl, len(srej), serr)
 	if serr != "" {
@@ -1168,7 +1372,7 @@ func TestCheck(t *testing.T) {
 	e.Set("header_size_boundary_largest_keyname", hdrBoundary)
 	e.Set("poison_on_put", true)
 	e.Set("evaluations", int64(len(fcases)+len(dcases)+ndec+4*len(scases)))
-	e.Set("traces_validated_against_impl", int64(ftr+dtr+str))
+	e.Set("traces_validated_against_impl", int64(ftr+dtr+str+sttr))
 	e.Set("rule", "framing case = (S, message length 0..3S+1, composition of the length into read chunks with parts <= S+1, EOF style [alone / with the last data], zero-length read placement, source failure offset alone / with data, consumer buffer size), all compositions enumerated; "+
 		"document case = (producer real/ref/stored, plaintext length around the 64 KiB boundaries, cipher, key-wrap algorithm or alias, DecryptionKeyName/OmitKeyName, wrap pair identity/kit, source reader style, consumer read size) with its list of decryptions (by real/ref, ciphertext reader style incl. every header split point, consumer read size, key-name override); "+
 		"segment-number case = (cipher, N in {0,1,255,256,65535,65536,2^24-1,2^24,2^24+1,2^31,2^32-2,2^32-1}) x last flag x direction (real seal -> README open at all 24 boundary positions + byte equality with the README sealing; README seal -> real open); "+
@@ -1225,6 +1429,13 @@ func TestCheck(t *testing.T) {
 			}
 			what += " [" + evs + "]"
 		}
+		if strings.HasPrefix(cs.Pair, "sized:") {
+			key = "roundtrip:wrapped-key-size=" + cs.Pair[6:] + ":" + slug(r.Why)
+			what = fmt.Sprintf("wrapped file key of %s bytes (the format does not limit it; the header fits one segment): %s", cs.Pair[6:], what)
+		}
+		if strings.HasPrefix(r.Why, "pooled buffer") && r.At < len(r.Trace) {
+			key = "pool:buffer-in-pool-twice:after-" + jsonField(r.Trace[r.At], "after")
+		}
 		if strings.HasPrefix(r.Why, "caller's retained key") {
 			after := "decrypt"
 			if r.At < len(r.Trace) && strings.Contains(r.Trace[r.At], `"after":"encrypt"`) {
@@ -1251,6 +1462,19 @@ func TestCheck(t *testing.T) {
 
 	// 5. binding self-tests
 	selfTest(e)
+}
+
+// jsonField extracts a string field from one recorded event line.
+func jsonField(line, name string) string {
+	j := strings.Index(line, `"`+name+`":"`)
+	if j < 0 {
+		return "?"
+	}
+	v := line[j+len(name)+4:]
+	if k := strings.IndexByte(v, '"'); k >= 0 {
+		return v[:k]
+	}
+	return "?"
 }
 
 func btoi(b bool) int {
